@@ -659,7 +659,8 @@ class Parser:
             while not self.at("|"):
                 pat = self.pattern_single()
                 if self.accept(":"):
-                    self.type_text([",", "|"])
+                    ty = self.type_text([",", "|"])
+                    pat = ("typed", pat, ty)
                 pats.append(pat)
                 if not self.accept(","): break
             self.expect("|")
